@@ -71,7 +71,7 @@ CLAIMED = {
         "by the precondition; likewise the binary search of CSRMatrix::get (result = the stored value of column j in a canonical row, else zero) and the search region of CSRMatrix::set "
         "(k = the insertion point: everything before it smaller, everything from it on >= j) with inductive loop invariants, termination and overflow checks. "
         "(2) BOUNDED stand-in, not counted as proved: the real text of CSRMatrix::get, set (single and two consecutive updates), is_canonical, "
-        "csr_sum_duplicates, from_coo, transpose, conjugate, csr_diagonal, csr_scale_rows/columns, csr_binop_csr_canonical (add, sub, mul) started from an ARBITRARY canonical matrix "
+        "csr_sum_duplicates, from_coo, transpose, conjugate, csr_matmat_pass1/2 (thorough tier), csr_diagonal, csr_scale_rows/columns, csr_binop_csr_canonical (add, sub, mul) started from an ARBITRARY canonical matrix "
         "(2x3 quick; 3x3 and 3x2 thorough; entries in GF(3); every sparsity pattern): result canonical (the constructors' SYMENGINE_ASSERT as an obligation) and entry-by-entry "
         "equal to the same operation on the dense expansion read by an independent linear scan; every vector index in range.",
    note="Trusted: signature-only rewrite std::vector<unsigned>& -> pointer (route P); field prelude and vector stubs (route B); csr_sort_indices replaced by its assumed contract (lambda); CBMC tool chain.",
